@@ -189,6 +189,43 @@ def run(ctx) -> None:
         else:
             res.disagreements.append({"where": "driver", "reason": "driver executable not built"})
 
+        # ---- file names that differ only in case / only under a normalisation: still two files, the report must not depend on
+        # the order they are given in, and must be in the documented order
+        tw = d / "twins"
+        tw.mkdir(parents=True, exist_ok=True)
+        (tw / "pyproject.toml").write_text("")
+        body = 'x = int(0)\ny = list()\nprint("")\n'
+        twin_sets = [["Util.py", "util.py"], ["stra\u00dfe.py", "strasse.py"], ["B.py", "a1.py", "b.py", "A1.py"]]
+        for ts in twin_sets:
+            for n in ts:
+                (tw / n).write_text(body)
+        tjobs = []
+        for ts in twin_sets:
+            for by in ("filename", "error"):
+                orders = [ts, ts[::-1]] + ([ts[1:] + ts[:1], ts[2:] + ts[:2]] if len(ts) > 2 else [])
+                tjobs.append((ts, by, orders))
+        with ThreadPoolExecutor(8) as ex:
+            touts = list(ex.map(lambda j: [cli(tw, [*o, "--sort", j[1]]) for o in j[2]], tjobs))
+        for (ts, by, orders), outs in zip(tjobs, touts):
+            res.case(("twins", tuple(ts), by))
+            res.bump("twin_runs", len(orders))
+            first = outs[0]
+            diags, _ = core.parse_plain(first[1])
+            keys = [sort_key(x, by) for x in diags]
+            if len({x["file"] for x in diags}) != len(ts):
+                res.notes.append(f"twin files {ts}: not all diagnosed (file system not case-sensitive?): skipped")
+                continue
+            if keys != sorted(keys):
+                res.violate(f"the report for files {ts} is not in the documented order (--sort {by})", {"kind": "documented-order", "by": by, "files": "twins"}, {"cwd_files": {n: body for n in ts}, "argv": [*orders[0], "--sort", by], "stdout": first[1][:800], "how": "write the files into an empty directory and run python -m refurb <argv>"})
+            for o, out in zip(orders[1:], outs[1:]):
+                if out[:2] != first[:2]:
+                    res.violate(
+                        f"permuting the file arguments changes the report for files whose names differ only in case/normalisation (--sort {by})",
+                        {"kind": "perm", "by": by, "files": "twins"},
+                        {"cwd_files": {n: body for n in ts}, "argv_reference": [*orders[0], "--sort", by], "argv": [*o, "--sort", by], "reference": first[1][:600], "observed": out[1][:600], "how": "write the files into an empty directory and run python -m refurb with both argument orders"},
+                    )
+                    break
+
         # ---- cache states and concurrency
         warm = cli(d, [*names, "--sort", "filename"])
         res.case(("cache", "warm"))
